@@ -41,7 +41,7 @@ def main():
     from .observe import Emitter, StandardObserver
 
     em = Emitter(cfg["events"], cfg.get("proc", 0))
-    model = make_model(cfg["model"])
+    model = make_model(cfg["model"]) if cfg["kind"] != "scripted" else None
     try:
         if cfg["kind"] == "standard":
             obs = StandardObserver(em, model, kill_at_eval=cfg.get("kill_at_eval"))
@@ -76,6 +76,44 @@ def main():
             for k in range(int(cfg.get("run_again", 0))):
                 fs.run(plot=False, save=False)
                 result_event(obs, fs, "done_again")
+        elif cfg["kind"] == "scripted":
+            from . import scripted
+            from .scripted import Script, ScriptedProposal, ScriptModel, install_loop_script, compare_with_spec
+
+            model = ScriptModel()
+            install_loop_script()
+            obs = StandardObserver(em, model)
+            obs.install()
+            rec = cfg["script"]
+            if cfg.get("max_again") is not None:     # behaviours idle in run-again cycles: keep a few
+                kept, n = [], 0
+                for x in rec["script"]:
+                    if x[0] == "again":
+                        n += 1
+                        if n > cfg["max_again"]:
+                            continue
+                    kept.append(x)
+                rec = dict(rec, script=kept)
+            Script.current = Script(rec, cfg["seed"])
+            n_again = sum(1 for x in rec["script"] if x[0] == "again")
+            em.emit("start", resume=False, cfg={"model": "script", "seed": cfg["seed"], "nlive": cfg["nlive"]})
+            fs = FlowSampler(model, output=cfg["output"], nlive=cfg["nlive"], seed=cfg["seed"], resume=False,
+                             signal_handling=False, plot=False, log_on_iteration=False, logging_interval=100000,
+                             uninformed_proposal=ScriptedProposal,
+                             uninformed_proposal_kwargs={"poolsize": cfg["pool_n"]},
+                             maximum_uninformed=10 ** 9, uninformed_acceptance_threshold=0.0,
+                             max_iteration=cfg.get("cap") or None, stopping=1.0,
+                             checkpoint_on_iteration=True, checkpoint_interval=5,
+                             flow_config={"n_blocks": 2, "n_neurons": 4})
+            obs.ns = fs.ns
+            fs.run(plot=False, save=False)
+            result_event(obs, fs, "done")
+            for k in range(n_again):
+                Script.current.take({"again"})
+                fs.run(plot=False, save=False)
+                result_event(obs, fs, "done_again")
+            left = [x for x in Script.current.items[Script.current.pos:]]
+            em.emit("replay", diffs=compare_with_spec(rec, fs), script_left=len(left))
         elif cfg["kind"] == "ins":
             from .observe_ins import INSObserver
 
